@@ -1017,8 +1017,50 @@ func RunSession(spec *SessSpec) *Trace {
 			if uu == 0 {
 				uu = env.Sim.FailoverCopy(uint16(st.VB))[0].UUID
 			}
-			env.Sim.SetObserve(uint16(st.VB), st.N, uu, uint64(st.St))
-			env.Log.Add(evlog.Rec{K: "ctl.observe", VB: st.VB, A: uu, B: uint64(st.N), Seq: uint64(st.St)})
+			pv := uint64(st.St)
+			if st.Sel == "high" { // exactly what the vBucket holds now (a realistic "everything persisted")
+				pv = env.Sim.High(uint16(st.VB))
+			}
+			env.Sim.SetObserve(uint16(st.VB), st.N, uu, pv)
+			env.Log.Add(evlog.Rec{K: "ctl.observe", VB: st.VB, A: uu, B: uint64(st.N), Seq: pv})
+		case "mapchange": // a new cluster map assigns replica index N of vBucket VB to a node (it was unassigned); Sel "epoch": higher revEpoch, lower rev
+			vbm, ix := uint16(st.VB), st.N
+			env.Sim.SetObserve(vbm, ix, env.Sim.FailoverCopy(vbm)[0].UUID, uint64(st.St))
+			node := (ix) % spec.Nodes
+			for _, n := range env.Sim.ReplicaNodes(vbm) {
+				if n == node {
+					node = (node + 1) % spec.Nodes
+				}
+			}
+			sel := st.Sel
+			env.Sim.SetReplicaNode(vbm, ix, node)
+			env.Sim.BumpConfig(func() {
+				if sel == "epoch" {
+					env.Sim.SetRevision(env.Sim.Rev-4, env.Sim.RevEpoch+1) // BumpConfig adds 1: a newer epoch whose rev restarts below the old one
+				}
+			})
+			rev, ep := env.Sim.Revision()
+			env.Log.Add(evlog.Rec{K: "ctl.mapchange", VB: st.VB, A: uint64(rev), B: uint64(ep), C: uint64(ix), D: uint64(node)})
+			// the client has the new map once every connection that polls the configuration was served it; the rollback
+			// mitigation compares snapshots every ConfigWatchInterval (50 ms)
+			pollers := map[int]bool{}
+			for _, r := range env.Log.Filter(func(r evlog.Rec) bool { return r.K == "sim.cfg" }) {
+				pollers[r.Cn] = true
+			}
+			hx.WaitFor(12*time.Second, func() bool {
+				got := map[int]bool{}
+				for _, r := range env.Log.Filter(func(r evlog.Rec) bool { return r.K == "sim.cfg" && int(r.A) == rev && int(r.B) == ep }) {
+					got[r.Cn] = true
+				}
+				for cn := range pollers {
+					if !got[cn] && env.Sim.ConnOpen(cn) {
+						return false
+					}
+				}
+				return len(got) > 0
+			})
+			time.Sleep(500 * time.Millisecond)
+			env.Log.Add(evlog.Rec{K: "ctl.mapchange.known", VB: st.VB, C: uint64(ix)})
 		case "observefail": // the replica answers TMPFAIL (Sel "tmpfail"), BUSY ("busy") or normally ("ok") from now on
 			s.pmu.Lock()
 			if s.obsFail == nil {
